@@ -108,7 +108,7 @@ func genRTx(c *kernel.RunCtx, extended bool, heavy *int) *models.RTx {
 		if cheap {
 			return c.Pick(4, 1)
 		}
-		n := boundaryLen(c, 70000)
+		n := boundaryLen(c, 270000)
 		if n > 60000 {
 			if *heavy <= 0 {
 				n = 300
@@ -123,17 +123,17 @@ func genRTx(c *kernel.RunCtx, extended bool, heavy *int) *models.RTx {
 		var in models.RIn
 		copy(in.TxIDWire[:], c.Bytes(32))
 		in.Vout, in.Seq = pickU32(c), pickU32(c)
-		in.Script = c.Bytes(slen(nin > 300))
+		in.Script = fillBytes(c, slen(nin > 300))
 		if extended {
 			in.PrevSats = pickU64(c)
-			in.PrevScript = c.Bytes(slen(nin > 300))
+			in.PrevScript = fillBytes(c, slen(nin > 300))
 		}
 		t.Ins = append(t.Ins, in)
 		c.End()
 	}
 	for i := 0; i < nout; i++ {
 		c.Begin("out")
-		t.Outs = append(t.Outs, models.ROut{Sats: pickU64(c), Script: c.Bytes(slen(nout > 300))})
+		t.Outs = append(t.Outs, models.ROut{Sats: pickU64(c), Script: fillBytes(c, slen(nout > 300))})
 		c.End()
 	}
 	if nin == 0 && nout == 0 && t.Lock == 0xEF000000 {
@@ -152,6 +152,8 @@ func genRTx(c *kernel.RunCtx, extended bool, heavy *int) *models.RTx {
 	for _, in := range t.Ins {
 		if l := len(in.Script); l == 252 || l == 253 {
 			c.Count("probe.script_len_252_253", 1)
+		} else if l >= 131071 {
+			c.Count("probe.script_len_over_128k", 1)
 		} else if l >= 65535 {
 			c.Count("probe.script_len_65535_65536", 1)
 		}
@@ -358,8 +360,8 @@ func (w *c01World) Run(c *kernel.RunCtx) {
 		_, _ = c01recv.tx.ReadFrom(kernel.NewStream(tb, kernel.Plan{}))
 	}
 	heavy := 0
-	if c.RunIdx%97 == 5 {
-		heavy = 1 // a quota of runs that force the 65535/65536 classes
+	if c.RunIdx%61 == 5 {
+		heavy = 2 // a quota of runs that force the 65535/65536 classes
 	}
 	c.Begin("shape")
 	extended := c.Bool(1, 2)
